@@ -891,6 +891,9 @@ modifier_stmt:
     kywd_modifier kywd_invert_match token_semi {
         l := yylex.(*lexer)
         l.builder.SetInverted(l.stack.peek())
+        if chkErr(yylex, l.builder.LastErr) {
+            goto ret1
+        }
     }
 
 require_instance_stmt :
